@@ -1,12 +1,17 @@
-(* Model/Sync.v — spec and impl-model of scared/synchronization.py : Synchronizer.run (property C20).
+(* Model/Sync.v — spec and impl-model of scared/synchronization.py : Synchronizer (property C20).
    Executable definitions only; proofs are in Proofs/Sync.v.
 
    A trace is a pair (metadata, samples).  The user's synchronisation function is external behaviour: it is a
-   Section variable [f : nat -> M * X -> outcome D] giving, for the i-th call (0-based, = position of the trace in
-   the input set) on trace t, what the call does: return data, return None, or raise an Exception.  Making the
-   call number an argument covers stateful user functions; every theorem holds for ALL such [f].
+   Section variable [f : nat -> M * X -> outcome D] giving, for the i-th call made on it since the object was built
+   (0-based; calls made by check() count) on trace t, what the call does: return data, return None, or raise an
+   Exception.  Making the call number an argument covers stateful user functions; every theorem holds for ALL such [f].
 
-   The ETS writer is abstract: a log of (index, (metadata, data)) write requests, read through [store_get]. *)
+   The object is a state machine over the PUBLIC calls: construction (over an output file that may already exist, with
+   overwrite False/True), any number of check(nb_traces, catch_exceptions) and report()/str() calls, run(), run() again.
+
+   The ETS writer is modelled as far as run() can observe it: the file on disk (absent, or a list of rows), the
+   lazy opening on the first write (overwrite=True resets the file there), the refusal of a write at an existing index
+   when overwrite=False (ETSWriterError, which is NOT caught by run()), and the resize to index + 1. *)
 From Coq Require Import ZArith List Bool Lia.
 From ScaredV Require Import Run.Compare.
 Import ListNotations.
@@ -26,11 +31,65 @@ Definition error_occur (e : errc) (id : nat) : errc :=
   then {| e_limit := 2 * e_limit e; e_last := id; e_count := c; e_warn := S (e_warn e) |}
   else {| e_limit := e_limit e; e_last := id; e_count := c; e_warn := e_warn e |}.
 
+(* ---------------------------------------------------------------- the output writer (estraces ETSWriter, as seen by run) *)
+Section Writer.
+  Variable E : Type.                             (* one row of the file: (metadata, data) *)
+
+  Record writer := {
+    ovw : bool;                                  (* overwrite *)
+    opened : bool;                               (* _is_init: the h5 file has been opened (first write) *)
+    disk : option (list (option E))              (* the file: None = does not exist; a row None = zero-filled gap *)
+  }.
+
+  (* ETSWriter(filename, overwrite): nothing is touched at construction *)
+  Definition new_writer (old : option (list E)) (o : bool) : writer :=
+    {| ovw := o; opened := false; disk := option_map (map Some) old |}.
+
+  (* _init_file, on the first write: overwrite=True removes an existing file; otherwise the file is opened in append mode
+     (created empty when absent) *)
+  Definition w_open (w : writer) : writer :=
+    if opened w then w
+    else {| ovw := ovw w; opened := true;
+            disk := if ovw w then Some [] else Some (match disk w with Some r => r | None => [] end) |}.
+
+  Definition w_rows (w : writer) : list (option E) := match disk w with Some r => r | None => [] end.
+
+  (* _write_to_data_set: the dataset is resized to index + 1 when index is beyond its end (gap rows are zero-filled) *)
+  Definition set_row (rows : list (option E)) (idx : nat) (v : option E) : list (option E) :=
+    if idx <? length rows then firstn idx rows ++ v :: skipn (S idx) rows
+    else rows ++ repeat None (idx - length rows) ++ [v].
+
+  (* write_trace_object_and_points(trace_object, points, index): (writer afterwards, true) or (writer, false) when
+     ETSWriterError is raised: "An element already exists ... at index and overwriting is disabled" *)
+  Definition w_write (w : writer) (idx : nat) (e : E) : writer * bool :=
+    let w1 := w_open w in
+    if (idx <? length (w_rows w1)) && negb (ovw w1) then (w1, false)
+    else ({| ovw := ovw w1; opened := true; disk := Some (set_row (w_rows w1) idx (Some e)) |}, true).
+
+  (* close(); get_reader(): the rows of the file, None = the file does not exist (AttributeError: no output set) *)
+  Definition w_reader (w : writer) : option (list (option E)) := disk w.
+End Writer.
+
+Arguments ovw {E} w.
+Arguments opened {E} w.
+Arguments disk {E} w.
+Arguments new_writer {E} old o.
+Arguments w_open {E} w.
+Arguments w_rows {E} w.
+Arguments set_row {E} rows idx v.
+Arguments w_write {E} w idx e.
+Arguments w_reader {E} w.
+
+(* a pre-existing file that makes the first write (index 0) collide: it exists, has rows, and overwrite is False *)
+Definition blocking {E} (old : option (list E)) (o : bool) : bool :=
+  negb o && match old with Some (_ :: _) => true | _ => false end.
+
 Section Sync.
   Variables (M X D : Type).
   Variable f : nat -> M * X -> outcome D.
 
   (* ---------------------------------------------------------------- spec: the accepted traces, in input order *)
+  (* [i] = number of the call made on the first trace of [input] *)
   Fixpoint accepted_from (i : nat) (input : list (M * X)) : list (M * D) :=
     match input with
     | [] => []
@@ -41,42 +100,140 @@ Section Sync.
     end.
   Definition accepted (input : list (M * X)) : list (M * D) := accepted_from 0 input.
 
-  (* ---------------------------------------------------------------- impl-model: the object's state and run() *)
+  (* number of traces rejected before the first accepted one *)
+  Fixpoint rejected_prefix (i : nat) (input : list (M * X)) : nat :=
+    match input with
+    | [] => 0
+    | t :: r => match f i t with Accept _ => 0 | _ => S (rejected_prefix (S i) r) end
+    end.
+
+  (* ---------------------------------------------------------------- impl-model: the object's state *)
   Record sstate := {
     processed : nat;                      (* processed_counter *)
     synchronized : nat;                   (* synchronized_counter *)
-    writes : list (nat * (M * D));        (* write_trace_object_and_points(trace_object, points, index) calls, in order *)
-    errs : option errc                    (* _err_counter : None until run() is called *)
+    writes : list (nat * (M * D));        (* write requests honoured by the writer, in order (ghost log) *)
+    errs : option errc;                   (* _err_counter : None until run() is called = the single-use guard *)
+    calls : nat;                          (* ghost: number of calls made on the user function so far *)
+    out : writer (M * D)                  (* self.output *)
   }.
-  Definition fresh : sstate := {| processed := 0; synchronized := 0; writes := []; errs := None |}.
 
-  (* one iteration of the for loop on trace number i *)
-  Definition step (st : sstate) (i : nat) (t : M * X) : sstate :=
-    match f i t with
+  (* Synchronizer(input_ths, output, function, overwrite) with [old] = content of the file [output] if it exists *)
+  Definition construct (old : option (list (M * D))) (o : bool) : sstate :=
+    {| processed := 0; synchronized := 0; writes := []; errs := None; calls := 0; out := new_writer old o |}.
+  Definition fresh : sstate := construct None false.
+
+  (* ---------------------------------------------------------------- run() *)
+  Inductive flow := Go (st : sstate) | Stop (st : sstate).
+
+  (* one iteration of the for loop.  Order of the code: synchronized_counter += 1 (try), processed_counter += 1
+     (finally), then the write, outside the try: an ETSWriterError leaves the loop and run() *)
+  Definition step (st : sstate) (t : M * X) : flow :=
+    match f (calls st) t with
     | Accept d =>
         let sc := S (synchronized st) in
-        {| processed := S (processed st); synchronized := sc;
-           writes := writes st ++ [(sc - 1, (fst t, d))]; errs := errs st |}
+        let wr := w_write (out st) (sc - 1) (fst t, d) in
+        if snd wr
+        then Go {| processed := S (processed st); synchronized := sc; writes := writes st ++ [(sc - 1, (fst t, d))];
+                   errs := errs st; calls := S (calls st); out := fst wr |}
+        else Stop {| processed := S (processed st); synchronized := sc; writes := writes st;
+                     errs := errs st; calls := S (calls st); out := fst wr |}
     | _ =>
-        {| processed := S (processed st); synchronized := synchronized st; writes := writes st;
-           errs := option_map (fun e => error_occur e (processed st)) (errs st) |}
+        Go {| processed := S (processed st); synchronized := synchronized st; writes := writes st;
+              errs := option_map (fun e => error_occur e (processed st)) (errs st);
+              calls := S (calls st); out := out st |}
     end.
 
-  Fixpoint loop (st : sstate) (i : nat) (input : list (M * X)) : sstate :=
+  Fixpoint loop (st : sstate) (input : list (M * X)) : flow :=
     match input with
-    | [] => st
-    | t :: r => loop (step st i t) (S i) r
+    | [] => Go st
+    | t :: r => match step st t with
+                | Go st1 => loop st1 r
+                | Stop st1 => Stop st1
+                end
     end.
 
-  (* run(): None = SynchronizerError (already called) *)
-  Definition run (st : sstate) (input : list (M * X)) : option sstate :=
+  Inductive run_result :=
+  | RunRefused                        (* SynchronizerError: run() was already called; nothing changes *)
+  | RunWriterError (st' : sstate)     (* ETSWriterError escaped from the loop; st' is the object left behind *)
+  | RunDone (st' : sstate).           (* loop finished; run() then returns output.get_reader() = w_reader (out st') *)
+
+  Definition arm (st : sstate) : sstate :=
+    {| processed := processed st; synchronized := synchronized st; writes := writes st;
+       errs := Some errc0; calls := calls st; out := out st |}.
+
+  Definition run (st : sstate) (input : list (M * X)) : run_result :=
     match errs st with
-    | Some _ => None
-    | None => Some (loop {| processed := processed st; synchronized := synchronized st; writes := writes st;
-                            errs := Some errc0 |} 0 input)
+    | Some _ => RunRefused
+    | None => match loop (arm st) input with
+              | Go st' => RunDone st'
+              | Stop st' => RunWriterError st'
+              end
     end.
 
-  (* ---------------------------------------------------------------- the abstract store *)
+  (* ---------------------------------------------------------------- check() and report() / str() *)
+  (* check(nb_traces, catch_exceptions): [picks] = the indexes drawn by np.random.choice (external: any list).
+     The function is called on the picked traces; results are collected in a LOCAL list; with catch_exceptions=False
+     the first rejected trace makes check() leave by exception.  Nothing of the object is written. *)
+  Inductive check_result (R : Type) := CheckReturned (res : list R) | CheckRaised.
+  Arguments CheckReturned {R} res.
+  Arguments CheckRaised {R}.
+
+  Fixpoint check_loop (c : nat) (input : list (M * X)) (picks : list nat) (catch : bool) (acc : list (option D))
+    : nat * check_result (option D) :=
+    match picks with
+    | [] => (c, CheckReturned acc)
+    | p :: r =>
+        match nth_error input p with
+        | None => (c, CheckRaised)
+        | Some t =>
+            match f c t with
+            | Accept d => check_loop (S c) input r catch (acc ++ [Some d])
+            | ReturnNone => if catch then check_loop (S c) input r catch (acc ++ [None]) else (S c, CheckRaised)
+            | Raise => if catch then check_loop (S c) input r catch acc else (S c, CheckRaised)
+            end
+        end
+    end.
+
+  Definition set_calls (st : sstate) (c : nat) : sstate :=
+    {| processed := processed st; synchronized := synchronized st; writes := writes st;
+       errs := errs st; calls := c; out := out st |}.
+
+  (* the sub-set input_ths[picks] is built before any call: an impossible index (or no index at all: estraces refuses
+     an empty selection) raises before the function is called *)
+  Definition check (st : sstate) (input : list (M * X)) (picks : list nat) (catch : bool)
+    : check_result (option D) * sstate :=
+    match picks with
+    | [] => (CheckRaised, st)
+    | _ => if forallb (fun p => p <? length input) picks
+           then let r := check_loop (calls st) input picks catch [] in (snd r, set_calls st (fst r))
+           else (CheckRaised, st)
+    end.
+
+  (* str(self): the two counters, or ZeroDivisionError (None) while processed_counter = 0 *)
+  Definition report (st : sstate) : option (nat * nat) :=
+    if processed st =? 0 then None else Some (processed st, synchronized st).
+
+  Inductive event := EvCheck (picks : list nat) (catch : bool) | EvReport.
+  Inductive ev_result := ErCheck (r : check_result (option D)) | ErReport (r : option (nat * nat)).
+
+  Definition exec_event (st : sstate) (input : list (M * X)) (ev : event) : ev_result * sstate :=
+    match ev with
+    | EvCheck picks catch => let r := check st input picks catch in (ErCheck (fst r), snd r)
+    | EvReport => (ErReport (report st), st)
+    end.
+
+  (* a history of public calls before run(); the states after each event are kept (observable counters) *)
+  Fixpoint exec_history (st : sstate) (input : list (M * X)) (evs : list event) : list (ev_result * sstate) * sstate :=
+    match evs with
+    | [] => ([], st)
+    | ev :: r => let a := exec_event st input ev in
+                 let b := exec_history (snd a) input r in
+                 (a :: fst b, snd b)
+    end.
+  Definition after_history (st : sstate) (input : list (M * X)) (evs : list event) : sstate :=
+    snd (exec_history st input evs).
+
+  (* ---------------------------------------------------------------- reading the ghost log as a file *)
   (* content of index j : the last write request at that index *)
   Fixpoint store_get (w : list (nat * (M * D))) (j : nat) : option (M * D) :=
     match w with
@@ -90,54 +247,164 @@ Section Sync.
   Definition store_size (w : list (nat * (M * D))) : nat := fold_right (fun p a => Nat.max (S (fst p)) a) 0 w.
   Definition store_rows (w : list (nat * (M * D))) : list (option (M * D)) :=
     map (store_get w) (seq 0 (store_size w)).
+
+  (* the state without the ghost call counter: everything a user can observe of the object *)
+  Definition visible (st : sstate) := (processed st, synchronized st, writes st, errs st, out st).
 End Sync.
 
 Arguments processed {M D} s.
 Arguments synchronized {M D} s.
 Arguments writes {M D} s.
 Arguments errs {M D} s.
+Arguments calls {M D} s.
+Arguments out {M D} s.
+Arguments construct {M D} old o.
 Arguments fresh {M D}.
+Arguments arm {M D} st.
+Arguments set_calls {M D} st c.
+Arguments report {M D} st.
+Arguments visible {M D} st.
 Arguments store_get {M D} w j.
 Arguments store_size {M D} w.
 Arguments store_rows {M D} w.
+Arguments Go {M D} st.
+Arguments Stop {M D} st.
+Arguments RunRefused {M D}.
+Arguments RunWriterError {M D} st'.
+Arguments RunDone {M D} st'.
+Arguments CheckReturned {R} res.
+Arguments CheckRaised {R}.
+Arguments ErCheck {D} r.
+Arguments ErReport {D} r.
 
 (* ---------------------------------------------------------------- correspondence cases *)
 Definition zrow := (list Z * list Z)%type.
 Definition zrow_eqb (a b : zrow) : bool := zlist_eqb (fst a) (fst b) && zlist_eqb (snd a) (snd b).
 
+(* what one pre-run event was observed to do, and the public counters read just after it *)
+Inductive ev_obs :=
+| ObsCheck (returned : option (list (option (list Z)))) (p s : nat)   (* None: check() left by exception *)
+| ObsReport (r : option (nat * nat)) (p s : nat).                     (* None: str() raised ZeroDivisionError *)
+
+Inductive run_obs := ObsReturned | ObsNoOutputSet | ObsWriterError | ObsRefused | ObsOther.
+
 Record sync_case := {
   sy_input : list zrow;                       (* (metadata values, samples) of every input trace *)
-  sy_pattern : list (outcome (list Z));       (* what the scripted user function does at its i-th call *)
-  sy_obs_seen : list zrow;                    (* (metadata, samples) of the trace_object received by each call *)
+  sy_pattern : list (outcome (list Z));       (* what the scripted user function does at its i-th call (check() included) *)
+  sy_old : option (list zrow);                (* rows of the output file as it was before the object was built; None: no file *)
+  sy_overwrite : bool;
+  sy_history : list event;                    (* public calls made before run() *)
+  sy_obs_history : list ev_obs;               (* what each of them did *)
+  sy_obs_seen : list zrow;                    (* (metadata, samples) of the trace_object received by each call, all calls *)
+  sy_obs_run : run_obs;                       (* how the first run() ended *)
   sy_obs_processed : nat;
   sy_obs_synchronized : nat;
-  sy_obs_rows : option (list zrow);           (* (metadata, samples) rows read back from the ETS; None: no output set *)
+  sy_obs_report : option (nat * nat);         (* the counters printed by str() after run(); None: ZeroDivisionError *)
+  sy_obs_warnings : nat;                      (* "consecutive traces" UserWarnings emitted during run() *)
+  sy_obs_rows : option (list zrow);           (* rows read back (returned reader, or the file on disk after an error); None: no file *)
   sy_obs_second_refused : bool                (* a second run() raised SynchronizerError and changed nothing *)
 }.
 
 Definition sy_fun (c : sync_case) : nat -> zrow -> outcome (list Z) := fun i _ => nth i (sy_pattern c) Raise.
 
-Definition sync_expected (c : sync_case) : list zrow := accepted _ _ _ (sy_fun c) (sy_input c).
+Definition orow_eqb : option zrow -> option zrow -> bool := option_eqb zrow_eqb.
+Definition rows_eqb (a b : option (list (option zrow))) : bool := option_eqb (list_eqb orow_eqb) a b.
+Definition counters_eqb (a b : option (nat * nat)) : bool :=
+  option_eqb (fun x y => Nat.eqb (fst x) (fst y) && Nat.eqb (snd x) (snd y)) a b.
+Definition odata_eqb : option (list Z) -> option (list Z) -> bool := option_eqb zlist_eqb.
+
+(* number of calls the model makes during the history, and the traces they are made on *)
+Definition sy_start (c : sync_case) : sstate (list Z) (list Z) := construct (sy_old c) (sy_overwrite c).
+Definition sy_pre (c : sync_case) : sstate (list Z) (list Z) :=
+  after_history _ _ _ (sy_fun c) (sy_start c) (sy_input c) (sy_history c).
+
+(* ---- SPEC side: what the property demands, computed without the state machine.
+   c0 calls were made by check(); the run handles the input from call c0 on; [acc] = the accepted traces.
+   Unless the pre-existing file blocks (overwrite=False over a non-empty file: run() must then fail with the writer's
+   error on the first accepted trace and leave the file alone), run() completes, counters are (n, |acc|), and the
+   output set holds exactly acc; when nothing was accepted nothing is written and whatever was there is still there. *)
+Record sync_spec := {
+  sp_run : run_obs; sp_processed : nat; sp_synchronized : nat; sp_rows : option (list (option zrow))
+}.
+Definition sync_expected_from (c : sync_case) (c0 : nat) : sync_spec :=
+  let acc := accepted_from _ _ _ (sy_fun c) c0 (sy_input c) in
+  let oldrows := option_map (map Some) (sy_old c) in
+  match acc with
+  | [] => {| sp_run := match sy_old c with None => ObsNoOutputSet | Some _ => ObsReturned end;
+             sp_processed := length (sy_input c); sp_synchronized := 0; sp_rows := oldrows |}
+  | _ => if blocking (sy_old c) (sy_overwrite c)
+         then {| sp_run := ObsWriterError; sp_processed := S (rejected_prefix _ _ _ (sy_fun c) c0 (sy_input c));
+                 sp_synchronized := 1; sp_rows := oldrows |}
+         else {| sp_run := ObsReturned; sp_processed := length (sy_input c); sp_synchronized := length acc;
+                 sp_rows := Some (map Some acc) |}
+  end.
+Definition sync_expected (c : sync_case) : sync_spec := sync_expected_from c (calls (sy_pre c)).
+
+Definition run_obs_eqb (a b : run_obs) : bool :=
+  match a, b with
+  | ObsReturned, ObsReturned | ObsNoOutputSet, ObsNoOutputSet | ObsWriterError, ObsWriterError
+  | ObsRefused, ObsRefused | ObsOther, ObsOther => true
+  | _, _ => false
+  end.
+
+(* ---- the pre-run history: every event does what the model says, and the public counters stay 0 / 0 *)
+Definition ev_check (m : ev_result (list Z) * sstate (list Z) (list Z)) (o : ev_obs) : bool :=
+  match fst m, o with
+  | ErCheck (CheckReturned res), ObsCheck (Some res') p s =>
+      list_eqb odata_eqb res res' && Nat.eqb p 0 && Nat.eqb s 0
+  | ErCheck CheckRaised, ObsCheck None p s => Nat.eqb p 0 && Nat.eqb s 0
+  | ErReport r, ObsReport r' p s => counters_eqb r r' && Nat.eqb p 0 && Nat.eqb s 0
+  | _, _ => false
+  end.
+
+(* the traces handed to the function: during check() any traces of the input set (the model is given the picks and
+   says which), during run() every input trace once, in order *)
+Fixpoint seen_by_history (st : sstate (list Z) (list Z)) (c : sync_case) (evs : list event) : list (option zrow) :=
+  match evs with
+  | [] => []
+  | ev :: r =>
+      let st1 := snd (exec_event _ _ _ (sy_fun c) st (sy_input c) ev) in
+      match ev with
+      | EvCheck picks _ => map (nth_error (sy_input c)) (firstn (calls st1 - calls st) picks)
+      | EvReport => []
+      end ++ seen_by_history st1 c r
+  end.
 
 Definition sync_check (c : sync_case) : bool :=
+  let f := sy_fun c in
+  let hist := exec_history _ _ _ f (sy_start c) (sy_input c) (sy_history c) in
+  let pre := snd hist in
   let spec := sync_expected c in
-  Nat.eqb (length (sy_pattern c)) (length (sy_input c))
-  && list_eqb zrow_eqb (sy_obs_seen c) (sy_input c)
-  && Nat.eqb (sy_obs_processed c) (length (sy_input c))
-  && Nat.eqb (sy_obs_synchronized c) (length spec)
+  let ncalls_run := match sp_run spec with ObsWriterError => sp_processed spec | _ => length (sy_input c) end in
+  (* the script covers every call *)
+  Nat.leb (calls pre + length (sy_input c)) (length (sy_pattern c))
+  (* history *)
+  && forallb2 ev_check (fst hist) (sy_obs_history c)
+  && list_eqb orow_eqb (map Some (sy_obs_seen c))
+       (seen_by_history (sy_start c) c (sy_history c) ++ map Some (firstn ncalls_run (sy_input c)))
+  (* spec *)
+  && run_obs_eqb (sy_obs_run c) (sp_run spec)
+  && Nat.eqb (sy_obs_processed c) (sp_processed spec)
+  && Nat.eqb (sy_obs_synchronized c) (sp_synchronized spec)
+  && rows_eqb (option_map (map Some) (sy_obs_rows c)) (sp_rows spec)
   && sy_obs_second_refused c
-  && match sy_obs_rows c with
-     | Some rows => list_eqb zrow_eqb rows spec
-     | None => match spec with [] => true | _ => false end
-     end
-  && match run _ _ _ (sy_fun c) fresh (sy_input c) with
-     | None => false
-     | Some st =>
-         Nat.eqb (sy_obs_processed c) (processed st)
+  (* impl-model *)
+  && match run _ _ _ f pre (sy_input c) with
+     | RunRefused => false
+     | RunWriterError st =>
+         run_obs_eqb (sy_obs_run c) ObsWriterError
+         && Nat.eqb (sy_obs_processed c) (processed st)
          && Nat.eqb (sy_obs_synchronized c) (synchronized st)
-         && match sy_obs_rows c with
-            | Some rows => list_eqb (option_eqb zrow_eqb) (store_rows (writes st)) (map Some rows)
-            | None => match writes st with [] => true | _ => false end
-            end
-         && match run _ _ _ (sy_fun c) st (sy_input c) with None => true | Some _ => false end
+         && counters_eqb (sy_obs_report c) (report st)
+         && rows_eqb (option_map (map Some) (sy_obs_rows c)) (disk (out st))
+         && Nat.eqb (sy_obs_warnings c) (match errs st with Some e => e_warn e | None => 0 end)
+         && match run _ _ _ f st (sy_input c) with RunRefused => true | _ => false end
+     | RunDone st =>
+         run_obs_eqb (sy_obs_run c) (match w_reader (out st) with Some _ => ObsReturned | None => ObsNoOutputSet end)
+         && Nat.eqb (sy_obs_processed c) (processed st)
+         && Nat.eqb (sy_obs_synchronized c) (synchronized st)
+         && counters_eqb (sy_obs_report c) (report st)
+         && rows_eqb (option_map (map Some) (sy_obs_rows c)) (w_reader (out st))
+         && Nat.eqb (sy_obs_warnings c) (match errs st with Some e => e_warn e | None => 0 end)
+         && match run _ _ _ f st (sy_input c) with RunRefused => true | _ => false end
      end.
